@@ -21,7 +21,8 @@ import (
 type vhImpWorld struct {
 	cas       uint64 // CAS of the stored document
 	syncCas   uint64 // CAS recorded in _sync.cas (equal to cas: last written by the gateway)
-	bodyCrc   bool   // stored body checksum equals _sync's (no external body change)
+	body      []byte // body as stored now
+	sgBody    []byte // body as last written by the gateway (what _sync's checksum describes)
 	revs      []string
 	attempts  int
 	changed   int // 0 none, 1 imported by the other path / gateway write, 2 another external write
@@ -68,10 +69,12 @@ func vhImpUpdateAndReturnDoc(db *DatabaseCollectionWithUser, ctx context.Context
 				w.changed = 1
 				w.cas = w.cas + 1 + uint64(vNondetRange(0, 3))
 				w.syncCas = w.cas
+				w.sgBody = w.body
 				w.revs = append(w.revs, "2-f")
-			case 2: // another external write
+			case 2: // another external write: new content, or exactly the bytes the gateway had written
 				w.changed = 2
 				w.cas = w.cas + 1 + uint64(vNondetRange(0, 3))
+				w.body = []byte{'{', vNondetU8(), '}'}
 			}
 			continue
 		}
@@ -88,18 +91,26 @@ func vhImpUpdateAndReturnDoc(db *DatabaseCollectionWithUser, ctx context.Context
 }
 
 func vhImpIsSGWrite(doc *Document, ctx context.Context, rawBody []byte) (bool, bool, bool) {
-	// the real predicate on the fields this harness controls: CAS match => gateway write; otherwise the body
-	// checksum decides (the harness keeps "checksum equal" only for documents the gateway wrote last)
+	// the real predicate reduced to the fields this harness controls: CAS match => gateway write; otherwise the
+	// checksum of the given body against what the gateway last wrote decides (the full predicate is decided by the
+	// fingerprint harnesses). The body handed in must be the body as stored now.
+	vAssert(string(rawBody) == string(vhImp.body), "the own-write check is made on the body as stored now")
 	if doc.SyncData.Cas == base.CasToString(doc.Cas) {
 		return true, false, false
+	}
+	if string(rawBody) == string(vhImp.sgBody) {
+		return true, true, false
 	}
 	return false, false, true
 }
 
 func vhImpBody(doc *Document, ctx context.Context) Body { return Body{"k": "v"} }
 
-func vhImpBodyBytes(doc *Document, ctx context.Context) ([]byte, error) {
-	return []byte(`{"k":"v"}`), nil
+func vhImpBodyBytes(doc *Document, ctx context.Context) ([]byte, error) { return vhImp.body, nil }
+
+func vhImpCreateRevID(generation int, parentRevID string, bodyBytes []byte) string {
+	vAssert(string(bodyBytes) == string(vhImp.body), "the imported revision's digest is computed from the body as stored now")
+	return vhC05CreateRevID(generation, parentRevID, bodyBytes)
 }
 
 func vhImpBackup(db *DatabaseCollectionWithUser, ctx context.Context, docid, revid string) error {
@@ -114,6 +125,9 @@ func VHarness_C09_ImportCallback() {
 	vAssume(c0 >= 1 && c0 < 1<<60)
 	c1 := c0 + 1 + uint64(vNondetRange(0, 3))
 	w := &vhImpWorld{cas: c1, syncCas: c0, revs: []string{"1-a"}}
+	w.sgBody = []byte{'{', vNondetU8(), '}'}
+	w.body = []byte{'{', vNondetU8(), '}'}
+	vAssume(string(w.body) != string(w.sgBody)) // the external write changed the body
 	vhImp = w
 	col := &DatabaseCollectionWithUser{DatabaseCollection: &DatabaseCollection{dbCtx: &DatabaseContext{}, ScopeName: base.DefaultScope, Name: base.DefaultCollection}}
 	col.dbCtx.DbStats = &base.DbStats{SharedBucketImportStats: &base.SharedBucketImportStats{ImportCount: &base.SgwIntStat{}, ImportHighSeq: &base.SgwIntStat{}, ImportProcessingTime: &base.SgwIntStat{}, ImportCancelCAS: &base.SgwIntStat{}, ImportErrorCount: &base.SgwIntStat{}}, DatabaseStats: &base.DatabaseStats{Crc32MatchCount: &base.SgwIntStat{}}}
@@ -122,7 +136,7 @@ func VHarness_C09_ImportCallback() {
 	if vNondetBool() {
 		mode = ImportOnDemand
 	}
-	existing := &sgbucket.BucketDocument{Cas: c1, Body: []byte(`{"k":"v"}`)}
+	existing := &sgbucket.BucketDocument{Cas: c1, Body: w.body}
 	out, err := col.importDoc(ctx, "doc", Body{"k": "v"}, nil, false, 1, existing, mode)
 	_ = out
 	switch w.changed {
@@ -142,6 +156,9 @@ func VHarness_C09_ImportCallback() {
 		vCover("import-raced-by-external-write")
 		if mode == ImportFromFeed {
 			vAssert(!w.committed && err == base.ErrImportCasFailure, "a feed import never imports a version other than the one that triggered it")
+		} else if string(w.body) == string(w.sgBody) {
+			vCover("external-write-restored-gateway-body")
+			vAssert(err == nil && !w.committed, "an external write that restores exactly what the gateway wrote needs no new revision")
 		} else {
 			vAssert(err == nil && w.committed && w.newRev != "", "an on-demand import imports the latest external write")
 			vAssert(w.casAt == w.cas, "the on-demand import is based on the document as stored now")
